@@ -73,7 +73,7 @@ def run(ctx):
     for need in ('steps', 'results', 'locked', 'used', 'stages'):
         if need not in state_attrs:
             raise AnalysisError(f"Recipe.__init__ no longer initialises self.{need}")
-    eff = receiver_effects(model)
+    eff = {k: {a.rstrip('*') for a in v} for k, v in receiver_effects(model).items()}
     public = [m for n, m in recipe.methods.items() if not n.startswith('_')]
     mutators = [m for m in public if eff.get(m.qualname, set()) & state_attrs]
     queries = [m for m in public if not (eff.get(m.qualname, set()) & state_attrs)]
